@@ -1,8 +1,10 @@
 (* Properties/C19.v — Ping completes exactly on a matching echo reply.
    Only statements, each closed by [exact] of a lemma proved in Proofs/Ping*.v.
 
-   The event system is Model/Ping.v: histories are lists of Begin / Notify / Skip / Timeout / End
-   events; [run fx (init n) tr = Ok s] says that tr is a well-formed history (every event enabled
+   The event system is Model/Ping.v: histories are lists of Begin (the waiter is registered under
+   the table lock) / Sent ok (the send returned) / BulkFail n / Notify / Skip / Timeout / End
+   events, in the order the code performs them; any event of another goroutine may come between
+   the Begin and the Sent of a call (a reply parsed while the call is still inside its send); [run fx (init n) tr = Ok s] says that tr is a well-formed history (every event enabled
    when it happens) from an empty table with next-id n, ending in s.  [run true] (= [run FIX24])
    is the code as it is in /repo since the repair of DESIGN section 11 #24 (commit 659869d),
    [run false] the code before it; every
@@ -10,40 +12,53 @@
    Real time enters only as the Timeout event.  What a frame does (Notify i or Skip) is
    Model/PingFrame.v; its agreement with the RFC reading is in the frame theorems below. *)
 From PV Require Import Base.Prelude Model.Ping Model.PingTrace Model.PingFrame Model.PingScript Model.PingKnown.
-From PV Require Import Spec.PingRFC Proofs.Ping Proofs.PingIff Proofs.PingMore Proofs.PingFrame Proofs.PingWrap.
+From PV Require Import Spec.PingRFC Proofs.Ping Proofs.PingIff Proofs.PingMore Proofs.PingFrame Proofs.PingBulk Proofs.PingWrap.
 Open Scope N_scope.
 
 (* ---------------------------------------------------------------------------------------- *)
-(* C19_iff (partial: under [young], see C19_distinct_refuted).  For every history, every call p and every way of cutting the history at p's Begin
-   and p's (first) End: p returns nil iff a notification carrying p's own identifier happened
-   between the two, and ErrTimeout iff none did — provided no call waits across 65536 Begin
-   events ([young] in every state; see C19_distinct for why this is needed: the code never checks
-   whether an identifier is still in use). The deadline that counts is the moment the call leaves
-   its select and takes the table lock (End p), which is at or after the timer (Timeout p): a
-   reply that arrives between the two still completes the call. *)
+(* C19_iff (partial: under [young], see C19_distinct_refuted).  For every history, every call p
+   and every way of cutting the history at p's Begin (registration) and p's End: p returns nil iff
+   a notification carrying p's own identifier happened between the two — INCLUDING while p was
+   still inside its send — and ErrTimeout iff none did, provided no call is outstanding across
+   65536 handed-out identifiers ([young] in every state; see C19_distinct for why: the code never
+   checks whether an identifier is still in use).  (That End p is p's first return and that its send
+   succeeded follow from the history being well formed: first_return.)  The deadline that counts is
+   the moment the call leaves its select and takes the table lock (End p), which is at or after the
+   timer (Timeout p): a reply that arrives between the two still completes the call. *)
 Theorem C19_iff_partial : forall fx n pre p mid post s,
   n < 65536 ->
-  run fx (init n) (pre ++ Begin p true :: mid ++ End p :: post) = Ok s ->
-  always fx young (init n) (pre ++ Begin p true :: mid ++ End p :: post) ->
-  ~ In (End p) mid ->
+  run fx (init n) (pre ++ Begin p :: mid ++ End p :: post) = Ok s ->
+  always fx young (init n) (pre ++ Begin p :: mid ++ End p :: post) ->
   exists i, id_of s p = Some i /\
     (result_of s p = Some RNil <-> In (Notify i) mid) /\
     (result_of s p = Some RTimeout <-> ~ In (Notify i) mid).
 Proof. exact ping_iff. Qed.
 Print Assumptions C19_iff_partial.
 
+(* A call whose send fails returns that error whatever was parsed meanwhile. *)
+Theorem C19_send_error : forall fx n pre p mid post s,
+  run fx (init n) (pre ++ Begin p :: mid ++ Sent p false :: post) = Ok s ->
+  result_of s p = Some RSendErr.
+Proof. exact ping_send_error. Qed.
+Print Assumptions C19_send_error.
+
+(* Registration precedes the send: a reply parsed while the call is inside its send completes it. *)
+Example C19_reply_during_send :
+  exists s, run FIX24 init_go ex_during_send = Ok s /\ result_of s 0%nat = Some RNil /\ tbl s = [].
+Proof. exact reply_during_send. Qed.
+Print Assumptions C19_reply_during_send.
+
 (* The hypothesis is satisfiable and both outcomes occur: call 1 (id 2) sees only notifications
    for other identifiers and times out, call 0 (id 1) is completed by its own. *)
 Example C19_iff_nonvacuous :
   exists s, run false init_go ex_history = Ok s /\ always false young init_go ex_history /\
-            ~ In (End 1%nat) ex_mid /\
             id_of s 1%nat = Some 2 /\ result_of s 1%nat = Some RTimeout /\
             id_of s 0%nat = Some 1 /\ result_of s 0%nat = Some RNil /\
             id_of s 2%nat = Some 3 /\ result_of s 2%nat = None.
 Proof. exact ping_iff_nonvacuous. Qed.
 Print Assumptions C19_iff_nonvacuous.
 
-(* Every history with fewer than 65536 calls in total satisfies the hypothesis. *)
+(* Every history that hands out fewer than 65536 identifiers in total satisfies the hypothesis. *)
 Theorem C19_young_if_few_calls : forall fx n tr,
   count_begins tr < 65536 -> always fx young (init n) tr.
 Proof. exact few_begins_young. Qed.
@@ -54,10 +69,10 @@ Print Assumptions C19_young_if_few_calls.
    far as the waiter table is concerned: Ok (Some i) = echoNotify(i) is called, Ok None = it is
    not.  [rfc_reply_id f] (Spec/PingRFC.v) is the RFC reading: f is an echo reply carrying
    identifier i.  (Model and classes follow /repo 38ef1da, which made IP4.IsValid reject IHL < 20
-   and TotalLength < IHL.)  They agree on every frame of at most 65535 bytes outside three recorded
+   and TotalLength < IHL.)  They agree on every frame of at most 65535 bytes outside four recorded
    defect classes (each refuted by a witness that is replayed on the real code by harness variants
-   hdr4/hdr6, fam4/fam6, tl4; keys echo_reply_bad_ip_header, echo_reply_wrong_icmp_family,
-   echo_reply_beyond_ip4_totallen in known_findings.txt). *)
+   hdr4/hdr6, fam4/fam6, tl4, pl6; keys echo_reply_bad_ip_header, echo_reply_wrong_icmp_family,
+   echo_reply_beyond_ip4_totallen, echo_reply_beyond_ip6_payloadlen in known_findings.txt). *)
 Theorem C19_frame_agree_partial : forall f, bytes_ok f -> N.of_nat (List.length f) <= 65535 ->
   known_C19_frame f = false -> parse_notify f = Ok (rfc_reply_id f).
 Proof. exact frame_agree. Qed.
@@ -82,6 +97,13 @@ Theorem C19_frame_agree_refuted_totallen :
 Proof. exact frame_agree_refuted_totallen. Qed.
 Print Assumptions C19_frame_agree_refuted_totallen.
 
+Theorem C19_frame_agree_refuted_paylen :
+  bytes_okb w_paylen = true /\ known_C19_iphdr w_paylen = false /\ known_C19_family w_paylen = false /\
+  known_C19_totallen w_paylen = false /\ known_C19_paylen w_paylen = true /\
+  parse_notify w_paylen = Ok (Some 7) /\ rfc_reply_id w_paylen = None.
+Proof. exact frame_agree_refuted_paylen. Qed.
+Print Assumptions C19_frame_agree_refuted_paylen.
+
 (* Echo requests never reach echoNotify. *)
 Theorem C19_request_silent_partial : forall f j, bytes_ok f -> N.of_nat (List.length f) <= 65535 ->
   known_C19_frame f = false -> rfc_request_id f = Some j -> parse_notify f = Ok None.
@@ -101,9 +123,8 @@ Print Assumptions C19_frame_nonvacuous.
    other calls), returns ErrTimeout. *)
 Theorem C19_foreign_partial : forall fx n pre p mid post s,
   n < 65536 ->
-  run fx (init n) (pre ++ Begin p true :: mid ++ End p :: post) = Ok s ->
-  always fx young (init n) (pre ++ Begin p true :: mid ++ End p :: post) ->
-  ~ In (End p) mid ->
+  run fx (init n) (pre ++ Begin p :: mid ++ End p :: post) = Ok s ->
+  always fx young (init n) (pre ++ Begin p :: mid ++ End p :: post) ->
   (forall e, In e mid ->
      (exists f, e = frame_event f /\ bytes_ok f /\ N.of_nat (List.length f) <= 65535 /\
                 known_C19_frame f = false /\ rfc_reply_id f <> id_of s p)
@@ -130,23 +151,41 @@ Print Assumptions C19_ids_equal_exact.
 Theorem C19_distinct_partial : forall fx n tr s q1 q2 pg1 pg2,
   n < 65536 -> run fx (init n) tr = Ok s -> young s ->
   q1 <> q2 -> pget (pings s) q1 = Some pg1 -> pget (pings s) q2 = Some pg2 ->
-  p_phase pg1 = Waiting -> p_phase pg2 = Waiting -> p_id pg1 <> p_id pg2.
+  outstanding pg1 = true -> outstanding pg2 = true -> p_id pg1 <> p_id pg2.
 Proof. exact distinct_run. Qed.
 Print Assumptions C19_distinct_partial.
 
 (* Without [young] the statements fail, and "fewer than 65536 calls outstanding" is NOT enough:
-   the history  Begin 0 | 65535 calls whose send fails | Begin 65536 | Notify 1 | Timeout 0 | End 0
-   is well formed for both code versions; only calls 0 and 65536 ever wait, both are handed
-   identifier 1; the reply for identifier 1 is parsed while call 0 waits, completes call 65536 and
-   call 0 returns ErrTimeout.  (Recorded as key ping_id_wrap_collision; the harness replays this
-   history on the real code: oracle record `viol ping_id_wrap_collision`.) *)
-Theorem C19_distinct_refuted : forall fx,
-  exists s, run fx init_go wrap_history = Ok s /\
-    id_of s 0%nat = Some 1 /\ id_of s K65536 = Some 1 /\
-    In (Notify 1) wrap_mid /\ ~ In (End 0%nat) wrap_mid /\ result_of s 0%nat = Some RTimeout /\
-    (exists pg, pget (pings s) K65536 = Some pg /\ p_recv pg = true /\ p_phase pg = Waiting).
+   Begin 0 | Sent 0 | 65535 calls whose send fails (BulkFail 65535) | Begin 1 | Sent 1 | Notify 1 |
+   Timeout 0 | End 0 is a well-formed history; only calls 0 and 1 are ever outstanding, both are
+   handed identifier 1; the reply for identifier 1 is parsed while call 0 waits, completes call 1,
+   and call 0 returns ErrTimeout.  (Key ping_id_wrap_collision; the harness runs exactly this
+   history on the real code and the observation is compared with the model.) *)
+Theorem C19_distinct_refuted :
+  exists s, run true init_go wrap_history = Ok s /\
+    id_of s 0%nat = Some 1 /\ id_of s 1%nat = Some 1 /\
+    In (Notify 1) wrap_mid /\ result_of s 0%nat = Some RTimeout /\
+    (exists pg, pget (pings s) 1%nat = Some pg /\ p_recv pg = true /\ p_phase pg = Waiting).
 Proof. exact wrap_collision. Qed.
 Print Assumptions C19_distinct_refuted.
+
+Theorem C19_wrap_not_young :
+  exists s, run true init_go [Begin 0%nat; Sent 0%nat true; BulkFail 65535; Begin 1%nat] = Ok s /\
+            known_C19_wrap s = true.
+Proof. exact wrap_not_young. Qed.
+Print Assumptions C19_wrap_not_young.
+
+(* The compressed event is sound: BulkFail k leaves the same table, next identifier, counter and
+   other calls as k pairs (Begin j; Sent j false) with fresh call numbers. *)
+Theorem C19_bulk_sound : forall k j0 s sb,
+  next s < 65536 -> N.of_nat k <= 65536 -> (forall x, In x (keys (tbl s)) -> x < 65536) ->
+  (forall p, (j0 <= p)%nat -> pget (pings s) p = None) ->
+  step true s (BulkFail (N.of_nat k)) = Ok sb ->
+  exists s', run true s (fails j0 k) = Ok s' /\
+    tbl s' = tbl sb /\ next s' = next sb /\ cnt s' = cnt sb /\
+    (forall p, (p < j0)%nat -> pget (pings s') p = pget (pings sb) p).
+Proof. exact bulk_sound. Qed.
+Print Assumptions C19_bulk_sound.
 
 (* the class is decidable: a state is young unless [known_C19_wrap] says otherwise *)
 Theorem C19_young_unless_known : forall s, known_C19_wrap s = false -> young s.
@@ -170,6 +209,12 @@ Theorem C19_notify_comm : forall fx s a b, Inv s ->
   run fx s [Notify a; Notify b] = run fx s [Notify b; Notify a].
 Proof. exact notify_comm. Qed.
 Print Assumptions C19_notify_comm.
+
+Theorem C19_sent_notify_comm : forall fx s p i pg, Inv s ->
+  pget (pings s) p = Some pg -> p_phase pg = Sending ->
+  run fx s [Sent p true; Notify i] = run fx s [Notify i; Sent p true].
+Proof. exact sent_notify_comm. Qed.
+Print Assumptions C19_sent_notify_comm.
 
 (* The waiter's channel is closed at most once: no history makes echoNotify panic. *)
 Theorem C19_no_panic : forall fx n tr, n < 65536 -> run fx (init n) tr <> Panic.
@@ -205,7 +250,7 @@ Print Assumptions C19_empty_when_idle.
 Theorem C19_table_exact_partial : forall fx n tr s, n < 65536 -> run fx (init n) tr = Ok s ->
   always fx young (init n) tr -> (fx = true \/ known_C19_sendfail tr = false) ->
   forall i q, tget (tbl s) i = Some q <->
-    exists pg, pget (pings s) q = Some pg /\ p_phase pg = Waiting /\ p_recv pg = false /\ p_id pg = i.
+    exists pg, pget (pings s) q = Some pg /\ outstanding pg = true /\ p_recv pg = false /\ p_id pg = i.
 Proof. exact table_exact. Qed.
 Print Assumptions C19_table_exact_partial.
 
